@@ -1,11 +1,14 @@
 #!/bin/sh
 # usage: tools/seedtest.sh <property> <patch.diff>   -- applies the patch to /repo, runs the quick check, reverts
+# The evidence file of the property is put back afterwards: what is committed must describe the clean tree.
 set -u
 P=$1; D=$2
 cd /repo || exit 9
 git diff --quiet || { echo "/repo is dirty"; exit 9; }
 git apply "$D" || { echo "patch does not apply"; exit 9; }
+[ -f /verif/evidence/$P.json ] && cp /verif/evidence/$P.json /verif/work/evidence_keep_$P.json
 cd /verif && ./vx check "$P" --tier quick; rc=$?
+[ -f /verif/work/evidence_keep_$P.json ] && mv /verif/work/evidence_keep_$P.json /verif/evidence/$P.json
 cd /repo && git checkout -- . 
 echo "seedtest: property=$P patch=$D exit=$rc"
 exit $rc
